@@ -913,8 +913,11 @@ def eval_local(b, l, env, depth):
         if k in ("ref", "copyforderef"):
             return eval_int(b, {"k": "copy", "place": rv["place"]}, env, depth)
         if k == "cast" and rv["ck"] == "IntToInt":
-            v = eval_int(b, rv["op"], env, depth)
-            return int(v)
+            v = int(eval_int(b, rv["op"], env, depth))
+            to = rv.get("to", "")
+            if to in ("u8", "u16", "u32", "u64", "usize", "u128"):
+                v &= (1 << (64 if to == "usize" else int(to[1:]))) - 1  # truncating cast
+            return v
         if k == "binop":
             x = eval_int(b, rv["a"], env, depth)
             y = eval_int(b, rv["b"], env, depth)
